@@ -254,7 +254,7 @@ def run(prog, ctx):
             ctx.fail("T4", inst, st.where,
                      "a pointer that is not fresh (%s) is stored into an object: two owners / two objects may share it" % why,
                      key="share:%s:%s" % (f.name, render(l)))
-    ctx.floor("C18.T4 pointer stores into objects", t4, 40)
+    ctx.floor("C18.T4 pointer stores into objects", t4, 25)
 
     # ---- T5 -----------------------------------------------------------------------------------
     for name, o in sorted(objs.items()):
